@@ -69,12 +69,11 @@ impl LuaPropertyIndex {
     ) -> Option<()> {
         let (_, property_id) = self.get_or_create_property(source_owner_id.clone())?;
         self.property_owners_map
-            .insert(same_property_owner_id, property_id);
+            .insert(same_property_owner_id.clone(), property_id);
 
-        self.in_filed_owner
-            .entry(file_id)
-            .or_default()
-            .insert(source_owner_id);
+        let owners = self.in_filed_owner.entry(file_id).or_default();
+        owners.insert(source_owner_id);
+        owners.insert(same_property_owner_id);
 
         Some(())
     }
